@@ -17,6 +17,16 @@ tie to code: for every explored live object graph (programs at the stages gen / 
                (5) four translators byte-identical on p and q, (6) by-value exports equal, (7) re-dump byte-identical,
                (8) `_namespaces` look-ups work, (9) TypeErasure / TypeOverwriting on deep copies with the same seed
                    give equal results.
+             (10) --replay through the driver (harness/proc_lib.py): the REAL `ProgramProcessor.get_program` and the REAL
+                  `hephaestus.gen_program` run 1–3 iterations in one process on a stored program, (a) with SCRIPTED
+                  transformers that mutate their program in place / return copies / transform nothing, every pattern up
+                  to a small length plus random ones, compared field by field (start program, step counts, every saved
+                  file) with lean/Heph/Model/Processor.lean (`proc.run`; theorems `replay_iteration_start`,
+                  `replay_start_faithful`, `replay_cached_counterexample`), and (b) end to end with the real TypeErasure
+                  and TypeOverwriting on generated programs dumped with the tool's own `dump_program`; judged directly:
+                  every iteration starts from a program equal to the stored one (marks / source text saved by
+                  --keep-all equal to the translation of the in-memory original) and is a new object; with the same RNG
+                  seed every iteration yields the same correct and incorrect program.
 failing input: (5)–(9) are judged on the real code alone, so a difference IS the failing input (generator replay
              (lang, seed, switches, depth), stage, hash leg, what differs).  If only (1)–(4) break, every explored
              program has been judged by (5)–(9) already; nothing found -> `no-failing-input-found` naming the
@@ -381,6 +391,93 @@ def run_stream(run, specs, found, model_broken, label, budget_s=10 ** 6):
     return direct_bad
 
 
+# ------------------------------------------------------------------ --replay through the driver (10)
+REPLAY_NOTE = ("C13: with --replay, every iteration has to start from the program stored in the .bin, whatever earlier "
+               "iterations of the same process did to the object they were given")
+
+
+def replay_driver_stream(run, quick, only_case=None):
+    """(a) scripted transformers vs the model and direct judges; (b) the real transformations end to end"""
+    import proc_lib
+    real = proc_lib.Real()
+    try:
+        if only_case is not None:
+            cases = [only_case]
+        else:
+            cases = proc_lib.exhaustive_cases(replay_only=True) + proc_lib.random_cases(run.rng, 120 if quick else 3000,
+                                                                                        replay_only=True)
+        direct, diffs = proc_lib.stream(run, real, cases, "replay", REPLAY_NOTE)
+        run.cov["replay_driver_cases"] = len(cases)
+        if only_case is None:
+            direct += replay_e2e(run, real, quick)
+    finally:
+        real.close()
+    if diffs:
+        run.log("correspondence breaks: ProgramProcessor / gen_program vs Model/Processor.lean:", common.canon(diffs[0])[:600])
+        if not direct:
+            run.violation({"kind": "broken-correspondence", "leg": "processor-model", "replay": "processor",
+                           "case": diffs[0]["case"], "detail": diffs[:2],
+                           "note": "the model of ProgramProcessor and of the loops of hephaestus.py differs from the real "
+                                   "code; every explored replay still starts from the stored program"},
+                          signature="model-differs:processor", no_input=True)
+    return direct
+
+
+def replay_e2e(run, real, quick):
+    import proc_lib
+    bad = 0
+    n = 6 if quick else 60
+    t_end = time.time() + (25 if quick else 600)
+    for i in range(n):
+        if time.time() > t_end:
+            break
+        lang = LANGS[i % 4]
+        seed = run.rng.randrange(1, 1 << 30)
+        md = 3 if quick else run.rng.choice([3, 4, 5])
+        program = pipeline.generate(lang, seed, (0, 0, 0, 0), md)
+        rseed = run.rng.randrange(1, 1 << 30)
+        o = proc_lib.e2e_replay(real, program, lang, 3, rseed)
+        where = {"replay": "e2e", "lang": lang, "seed": seed, "switches": [0, 0, 0, 0], "max_depth": md, "rseed": rseed}
+        run.count(dict(where, kind="replay-e2e"))
+        run.tally("replay_e2e", "programs")
+        problems = []
+        if o["nonterminating"]:
+            problems.append(("replay-e2e:nonterminating", o["nonterminating"]))
+        its = o["iterations"]
+        for it in its:
+            run.tally("replay_e2e", "iterations")
+            if it["failed"]:
+                run.tally("replay_e2e", "iteration-failed-internally")
+            if it["start"] is not None and it["start"] != o["original"]:
+                problems.append(("replay:start-differs-from-stored", {"iteration": it["pid"], "what": "the initial program "
+                                 "saved by --keep-all differs from the translation of the in-memory original",
+                                 "first_difference": first_diff(o["original"], it["start"])}))
+            if it["start_obj_reused"]:
+                problems.append(("replay:object-reused", {"iteration": it["pid"]}))
+        ok = [it for it in its if not it["failed"]]
+        for key in ("correct", "incorrect"):
+            texts = {it[key] for it in ok}
+            if len(texts) > 1:
+                problems.append(("replay:iterations-differ:" + key, {"what": "the same stored program and RNG seed give different "
+                                 "%s programs in different iterations" % key,
+                                 "first_difference": first_diff(ok[0][key] or "", next(it[key] for it in ok if it[key] != ok[0][key]) or "")}))
+        if any(it["transformations"] for it in ok):
+            run.tally("replay_e2e", "programs-with-an-erasure-step")
+        seen = run.cov.setdefault("processor_failures_by_signature", {})
+        for sig, detail in problems:
+            bad += 1
+            seen[sig] = seen.get(sig, 0) + 1
+            if seen[sig] <= 1:
+                run.violation(dict(where, kind="failing-input", leg=sig, detail=detail, note=REPLAY_NOTE), signature=sig)
+    return bad
+
+
+def first_diff(a, b):
+    a, b = a or "", b or ""
+    i = next((k for k, (x, y) in enumerate(zip(a, b)) if x != y), min(len(a), len(b)))
+    return {"offset": i, "original": a[max(0, i - 60):i + 60], "other": b[max(0, i - 60):i + 60]}
+
+
 def init_cov(run):
     run.cov["opcodes_seen"] = {}
     run.cov["object_kinds_seen"] = {}
@@ -426,7 +523,13 @@ def check(run):
     quick = run.tier == "quick"
     found, model_broken = set(), []
     run_corpus(run, found, model_broken)
+    t_rep = time.time()
+    replay_direct = replay_driver_stream(run, quick)
+    t_rep = time.time() - t_rep
+    run.cov["replay_driver_wall_s"] = round(t_rep, 1)
     nprog, cap, budget = (32, 60, 100) if quick else (600, 150, 1500)
+    if quick:
+        budget = max(45, budget - t_rep)      # the quick tier keeps its wall-clock size
     depths = [3, 3, 3, 4, 4] if quick else [4, 5, 5, 6, 6, 7]
     specs = make_specs(run.rng, nprog, cap, depths, full=not quick)
     direct_bad = run_stream(run, specs, found, model_broken, "pipeline stream", budget)
@@ -443,7 +546,7 @@ def check(run):
         "than 50 heap objects; distinct by replay tuple")
     finish_cov(run)
     if model_broken:
-        report_model(run, model_broken, bool(direct_bad) or bool(run.violations))
+        report_model(run, model_broken, bool(direct_bad) or bool(replay_direct) or bool(run.violations))
     if not proofs_ok and not run.violations:
         run.violation({"kind": "broken-proof", "obligations": run.broken,
                        "note": "no explored program or corpus graph is treated differently by the real code"},
@@ -454,6 +557,25 @@ def replay(run, rp):
     pipeline.setup()
     init_cov(run)
     found, model_broken = set(), []
+    if rp.get("replay") == "processor":
+        replay_driver_stream(run, True, only_case=rp["case"])
+        run.cov["rule"] = "replay of one scripted --replay case through the real ProgramProcessor / gen_program"
+        return
+    if rp.get("replay") == "e2e":
+        import proc_lib
+        real = proc_lib.Real()
+        try:
+            program = pipeline.generate(rp["lang"], rp["seed"], tuple(rp["switches"]), rp["max_depth"])
+            o = proc_lib.e2e_replay(real, program, rp["lang"], 3, rp["rseed"])
+        finally:
+            real.close()
+        for it in o["iterations"]:
+            if it["start"] is not None and it["start"] != o["original"]:
+                run.violation(dict(rp, kind="failing-input", detail=first_diff(o["original"], it["start"])),
+                              signature="replay:start-differs-from-stored")
+                break
+        run.cov["rule"] = "replay of one end-to-end --replay run (3 iterations, real transformations)"
+        return
     if "corpus" in rp:
         run_corpus(run, found, model_broken)
         run.cov["rule"] = "replay of the hand-made corpus"
